@@ -160,6 +160,10 @@ def judge_roundtrip(case):
     st, pm = make_model(case["model"])
     if st != "ok":
         return core.result("model-raised", nontrivial=False)
+    if case.get("perm_units"):
+        # a process model may hold its permeances in any unit; load promises kg/(m2 h kPa)
+        mixo = pm.mixture
+        pm.permeances = [(p[0].convert(case["perm_units"], mixo.first_component), p[1].convert(case["perm_units"], mixo.second_component)) for p in pm.permeances]
     root = tempfile.mkdtemp(prefix="c17_", dir=SCRATCH)
     try:
         ClockStub.answer = 4242
@@ -425,6 +429,7 @@ def main(tier, seed):
                         spec.update(curves=spaces.CURVE_CONFIGS["one"], init_perm=None)
                     models.append(spec)
     rt = [{"model": mdl, "is_safe": s} for mdl in models for s in (False, True)]
+    rt += [{"model": mdl, "is_safe": s, "perm_units": u} for mdl in models[::3] for s in (False, True) for u in ("SI", "GPU")]
     traces.Setup(dict(models[-1], steps=1)).run(steps=1)
     core.run_space(rep, core.ListSpace("process_roundtrip", rt), judge_roundtrip)
     cur = core.Space("curve_roundtrip", {
